@@ -1,5 +1,166 @@
-import Model.Core
+/-
+Props/C12.lean — property C12: all geometry is covariant under translation of the coordinate origin.
+
+Every theorem quantifies over all shapes, masks (`bits`), pixel scales (non-zero), origins `o` and
+translations `d` in an arbitrary ordered field, and is stated about the `Impl` layer of
+Model/Geometry.lean + Model/EntryPoints.lean, i.e. about the formulas of the code with the origin
+plumbed exactly as the code plumbs it (after repairs D10a–g).
+
+Coordinate-valued results:  E(shift d cfg) = E(cfg) translated by d.
+Index / count / weight-valued results on correspondingly translated points:  unchanged.
+-/
+import Model.EntryPoints
+import Proofs.EntryPoints
+import Mathlib.Data.Rat.Floor
+
+open Model
+
 namespace C12
--- placeholder until the geometry model lands; replaced below in this round
-theorem placeholder : (1 : Nat) + 1 = 2 := rfl
+
+variable {α : Type} [Field α] [LinearOrder α] [IsStrictOrderedRing α]
+
+/-- base lemma: the origin enters only through `central_scaled_coordinate_2d_from`, as `+d_y/s_y`, `-d_x/s_x` -/
+theorem origin_enters_through_central_scaled (shape : Nat × Nat) (s o d : α × α)
+    (hs1 : s.1 ≠ 0) (hs2 : s.2 ≠ 0) :
+    Impl.centralScaled2 shape s (o.1 + d.1, o.2 + d.2)
+      = ((Impl.centralScaled2 shape s o).1 + d.1 / s.1, (Impl.centralScaled2 shape s o).2 - d.2 / s.2) :=
+  centralScaled2_shift shape s o d hs1 hs2
+
+/-- `Grid2D.from_mask`: pixel-centre grid of any mask translates by `d` -/
+theorem grid_from_mask_covariant (g : Geom α) (bits : List Bool) (d : α × α)
+    (hs1 : g.s.1 ≠ 0) (hs2 : g.s.2 ≠ 0) :
+    Impl.gridFromMask (g.shift d) bits = (Impl.gridFromMask g bits).map (shiftPt d) :=
+  gridFromMask_shift g bits d hs1 hs2
+
+/-- `derive_grid.all_false` / unmasked grid -/
+theorem all_false_grid_covariant (g : Geom α) (d : α × α) (hs1 : g.s.1 ≠ 0) (hs2 : g.s.2 ≠ 0) :
+    Impl.gridAllFalse (g.shift d) = (Impl.gridAllFalse g).map (shiftPt d) :=
+  gridAllFalse_shift g d hs1 hs2
+
+/-- edge / border / blurring / sub-border grids: any gather of the mask grid through an index list that
+    depends on the mask only (all indices in range) translates by `d` -/
+theorem gathered_grid_covariant (g : Geom α) (bits : List Bool) (idx : List Nat) (d : α × α)
+    (hs1 : g.s.1 ≠ 0) (hs2 : g.s.2 ≠ 0) (hidx : ∀ k ∈ idx, k < (Impl.gridFromMask g bits).length) :
+    Impl.gather (Impl.gridFromMask (g.shift d) bits) idx
+      = (Impl.gather (Impl.gridFromMask g bits) idx).map (shiftPt d) := by
+  rw [gridFromMask_shift g bits d hs1 hs2]
+  exact gather_shift _ idx d hidx
+
+/-- `Grid2D.padded_grid_from` (repair D10a) -/
+theorem padded_grid_covariant (g : Geom α) (k : Nat × Nat) (d : α × α)
+    (hs1 : g.s.1 ≠ 0) (hs2 : g.s.2 ≠ 0) :
+    Impl.paddedGrid (g.shift d) k = (Impl.paddedGrid g k).map (shiftPt d) := by
+  unfold Impl.paddedGrid
+  exact gridAllFalse_shift (Impl.paddedGeom g k) d hs1 hs2
+
+/-- `Mask2D.resized_from` keeps the record's origin, so its grid translates by `d` for any resized mask -/
+theorem resized_grid_covariant (g : Geom α) (newShape : Nat × Nat) (bits' : List Bool) (d : α × α)
+    (hs1 : g.s.1 ≠ 0) (hs2 : g.s.2 ≠ 0) :
+    Impl.gridFromMask (Impl.resizedGeom (g.shift d) newShape) bits'
+      = (Impl.gridFromMask (Impl.resizedGeom g newShape) bits').map (shiftPt d) :=
+  gridFromMask_shift (Impl.resizedGeom g newShape) bits' d hs1 hs2
+
+/-- `OverSamplerUniform.over_sampled_grid` / `BorderRelocator.sub_grid` -/
+theorem over_sampled_grid_covariant (g : Geom α) (bits : List Bool) (sub : Nat) (d : α × α)
+    (hs1 : g.s.1 ≠ 0) (hs2 : g.s.2 ≠ 0) :
+    Impl.overSampledGrid (g.shift d) bits sub = (Impl.overSampledGrid g bits sub).map (shiftPt d) :=
+  overSampledGrid_shift g bits sub d hs1 hs2
+
+/-- `Mask2D.mask_centre` -/
+theorem mask_centre_covariant (g : Geom α) (bits : List Bool) (d : α × α)
+    (hs1 : g.s.1 ≠ 0) (hs2 : g.s.2 ≠ 0) :
+    Impl.maskCentre (g.shift d) bits = (Impl.maskCentre g bits).map (shiftPt d) :=
+  maskCentre_shift g bits d hs1 hs2
+
+/-- `Mask2D.geometry.extent` = (x_min, x_max, y_min, y_max) -/
+theorem extent_covariant (shape : Nat × Nat) (s o d : α × α) :
+    Impl.extent shape s (o.1 + d.1, o.2 + d.2)
+      = ((Impl.extent shape s o).1 + d.2, (Impl.extent shape s o).2.1 + d.2,
+         (Impl.extent shape s o).2.2.1 + d.1, (Impl.extent shape s o).2.2.2 + d.1) :=
+  extent_shift shape s o d
+
+/-- `Mask2D.zoom_mask_unmasked` (repair D10b): the zoomed record, hence its grid, translates by `d` -/
+theorem zoom_mask_covariant (g : Geom α) (bits : List Bool) (zs : Nat × Nat) (d : α × α)
+    (hs1 : g.s.1 ≠ 0) (hs2 : g.s.2 ≠ 0) :
+    Impl.zoomMaskGeom (g.shift d) bits zs = (Impl.zoomMaskGeom g bits zs).map (·.shift d) :=
+  zoomMaskGeom_shift g bits zs d hs1 hs2
+
+/-- … and the pixel-space zoom centre / offsets do not depend on the origin -/
+theorem zoom_centre_invariant (g : Geom α) (bits : List Bool) (d : α × α)
+    (hs1 : g.s.1 ≠ 0) (hs2 : g.s.2 ≠ 0) :
+    Impl.zoomCentre (g.shift d) bits = Impl.zoomCentre g bits :=
+  zoomCentre_shift g bits d hs1 hs2
+
+/-- `Array2D.zoomed_around_mask` -/
+theorem zoomed_around_mask_covariant (g : Geom α) (bits : List Bool) (es : Nat × Nat) (d : α × α)
+    (hs1 : g.s.1 ≠ 0) (hs2 : g.s.2 ≠ 0) :
+    Impl.zoomedAroundMaskGeom (g.shift d) bits es
+      = (Impl.zoomedAroundMaskGeom g bits es).map (·.shift d) :=
+  zoomedAroundMaskGeom_shift g bits es d hs1 hs2
+
+/-- continuous pixel → scaled conversion (`grid_scaled_2d_from`) -/
+theorem scaled_of_pixels_covariant (shape : Nat × Nat) (s o d pix : α × α)
+    (hs1 : s.1 ≠ 0) (hs2 : s.2 ≠ 0) :
+    Impl.scaledOfPixels shape s (o.1 + d.1, o.2 + d.2) pix
+      = shiftPt d (Impl.scaledOfPixels shape s o pix) :=
+  scaledOfPixels_shift shape s o d pix hs1 hs2
+
+/-- index-valued: continuous pixel coordinates, pixel indices (both code variants) and flattened
+    indexes of correspondingly translated points are unchanged, for ANY `int()` function -/
+theorem pixel_indices_invariant (trunc : α → Int) (shape : Nat × Nat) (s o d p : α × α)
+    (hs1 : s.1 ≠ 0) (hs2 : s.2 ≠ 0) :
+    Impl.pixelsOfScaled shape s (o.1 + d.1, o.2 + d.2) (shiftPt d p) = Impl.pixelsOfScaled shape s o p
+    ∧ Impl.pixelCoordinates2 trunc shape s (o.1 + d.1, o.2 + d.2) (shiftPt d p)
+        = Impl.pixelCoordinates2 trunc shape s o p
+    ∧ Impl.pixelCentreOfScaled trunc shape s (o.1 + d.1, o.2 + d.2) (shiftPt d p)
+        = Impl.pixelCentreOfScaled trunc shape s o p :=
+  ⟨pixelsOfScaled_shift shape s o d p hs1 hs2, pixelCoordinates2_shift trunc shape s o d p hs1 hs2,
+   pixelCentreOfScaled_shift trunc shape s o d p hs1 hs2⟩
+
+theorem grid_pixel_indexes_invariant (trunc : α → Int) (shape : Nat × Nat) (s o d : α × α)
+    (grid : List (α × α)) (hs1 : s.1 ≠ 0) (hs2 : s.2 ≠ 0) :
+    Impl.gridPixelIndexes2 trunc shape s (o.1 + d.1, o.2 + d.2) (grid.map (shiftPt d))
+      = Impl.gridPixelIndexes2 trunc shape s o grid := by
+  rw [gridPixelIndexes2_eq, gridPixelIndexes2_eq, List.map_map]
+  apply List.map_congr_left
+  intro p _
+  simp only [Function.comp, pixelCentreOfScaled_shift trunc shape s o d p hs1 hs2]
+
+/-- rectangular pixelization on a translated source-plane grid: the overlaid mesh record translates … -/
+theorem overlay_mesh_covariant (grid : List (α × α)) (ms : Nat × Nat) (buffer : α) (d : α × α) :
+    Impl.overlayMeshGeom (grid.map (shiftPt d)) ms buffer
+      = (Impl.overlayMeshGeom grid ms buffer).map (·.shift d) :=
+  overlayMeshGeom_shift grid ms buffer d
+
+/-- … and the mapper's index table (hence its mapping matrix, a function of the table and of
+    origin-free sub-pixel weights) is unchanged -/
+theorem rectangular_mapper_table_invariant (trunc : α → Int) (mesh : Geom α) (grid : List (α × α))
+    (d : α × α) (hs1 : mesh.s.1 ≠ 0) (hs2 : mesh.s.2 ≠ 0) :
+    Impl.rectangularPixIndexes trunc (mesh.shift d) (grid.map (shiftPt d))
+      = Impl.rectangularPixIndexes trunc mesh grid :=
+  rectangularPixIndexes_shift trunc mesh grid d hs1 hs2
+
+/-- dataset operations return arrays whose record is the input record with at most a new shape
+    (apply_noise_scaling, simulator, S/N-limited noise map after repairs D10c–e; trimming): record
+    derivation commutes with translation, so every grid built on the result is covariant by the
+    theorems above. -/
+theorem dataset_records_commute (g : Geom α) (k : Nat × Nat) (d : α × α) :
+    Impl.datasetKeepGeom (g.shift d) = (Impl.datasetKeepGeom g).shift d
+    ∧ Impl.datasetTrimmedGeom (g.shift d) k = (Impl.datasetTrimmedGeom g k).shift d
+    ∧ Impl.paddedGeom (g.shift d) k = (Impl.paddedGeom g k).shift d
+    ∧ Impl.resizedGeom (g.shift d) k = (Impl.resizedGeom g k).shift d :=
+  ⟨rfl, rfl, rfl, rfl⟩
+
+/-! ### non-vacuity: concrete instance over ℚ (3×4 frame, anisotropic scales, off-origin, d ≠ 0) -/
+example :
+    let g : Geom ℚ := ⟨(3, 4), (1/2, 3/4), (1/8, -2)⟩
+    let bits := [true, false, false, true, false, false, true, true, true, true, false, true]
+    let d : ℚ × ℚ := (3/4, -5/4)
+    g.s.1 ≠ 0 ∧ g.s.2 ≠ 0
+    ∧ Impl.gridFromMask (g.shift d) bits = (Impl.gridFromMask g bits).map (shiftPt d)
+    ∧ (Impl.gridFromMask g bits).length = 5
+    ∧ Impl.maskCentre (g.shift d) bits = (Impl.maskCentre g bits).map (shiftPt d)
+    ∧ (Impl.maskCentre g bits).isSome = true := by
+  decide +kernel
+
 end C12
